@@ -81,7 +81,7 @@ def gen_structure(rng, max_stems=6, max_len=4, max_gap=3, template_p=0.35, knott
             family = "random:%d" % k
         nst = (max(order) + 1) if order else 0
         # swarm: per structure choose a length regime
-        regime = rng.choice(["ones", "mixed", "long", "equal"])
+        regime = rng.choice(["ones", "mixed", "long", "equal", "verylong"])
         if regime == "ones":
             lengths = [1] * nst
         elif regime == "equal":
@@ -89,6 +89,8 @@ def gen_structure(rng, max_stems=6, max_len=4, max_gap=3, template_p=0.35, knott
             lengths = [L] * nst
         elif regime == "long":
             lengths = [rng.randint(2, max_len) for _ in range(nst)]
+        elif regime == "verylong":
+            lengths = [rng.randint(1, 3 * max_len) for _ in range(nst)]
         else:
             lengths = [rng.randint(1, max_len) for _ in range(nst)]
         gap_regime = rng.choice(["zero", "small", "any"])
@@ -125,6 +127,31 @@ def gen_multi_group(rng, min_groups=2, max_groups=4):
         base += k
     gaps = [rng.randint(0, 2) for _ in range(len(order) + 1)]
     return {"triples": layout(order, lengths, gaps, rng), "family": "multigroup:%d" % groups}
+
+
+def gen_many(rng, min_stems=10, max_stems=16, max_len=3):
+    """Many stems (>= 10 regions, two-digit region indexes) but sparse crossings, so that exact
+    reference optimisation stays cheap: a chain of blocks (hairpins, nested pairs, small knots), optionally
+    wrapped in enclosing stems."""
+    target = rng.randint(min_stems, max_stems)
+    order, lengths = [], []
+    base = 0
+    while base < target:
+        kind = rng.choice(["hairpin", "hairpin", "nested2", "htype", "htype", "kissing", "ladder3", "path3",
+                           "knot_in_loop", "star_side"])
+        t = TEMPLATES[kind]
+        k = max(t) + 1
+        order += [base + x for x in t]
+        lengths += [rng.randint(1, max_len) for _ in range(k)]
+        base += k
+    wraps = rng.choice([0, 0, 1, 2])
+    for _ in range(wraps):
+        order = [base] + order + [base]
+        lengths.append(rng.randint(1, max_len))
+        base += 1
+    # gaps: at least one unpaired position between blocks now and then, so adjacent stems do not all merge
+    gaps = [rng.choice([0, 1, 1, 2]) for _ in range(len(order) + 1)]
+    return {"triples": layout(order, lengths, gaps, rng), "family": "many:%d" % base}
 
 
 def all_matchings(n):
